@@ -143,6 +143,7 @@ fn run_faults<K: KeyT, V: ValT>(a: &Args) {
     let follow = a.num("follow", 6);
     let maxper = a.num("max-per-kind", 10);
     emit(&mut out, &header::<K>(a, json!({"mode":"faults"})));
+    let mut seg = 0u32;
     for si in 0..states {
         let hm = (si % 3) as u8;
         let nkeys = [12u32, 24, 40][(si / 3 % 3) as usize];
@@ -259,48 +260,7 @@ fn run_faults<K: KeyT, V: ValT>(a: &Args) {
             }
         }
         w0.silent = false;
-        // fault-free control segment: the same state, operation and follow-up calls without a panic.
-        // If this one already misbehaves, whatever goes wrong after an injected panic is not the panic's doing.
-        {
-            rebase_live();
-            let live_now: i64 = (1..w0.slots.len()).filter(|&s| w0.alive(s)).map(|s| {
-                let st = w0.vstate(s).unwrap();
-                (st.main_buckets > 1) as i64 + st.split as i64
-            }).sum();
-            LIVE_BASE.fetch_sub(live_now, std::sync::atomic::Ordering::Relaxed);
-            emit(&mut out, &json!({"op":"Reset","state":si,"hm":hm,"nkeys":nkeys,"baseline":1,"prefix":prefix.len(),"prefix_ops":prefix}));
-            let snap = w0.snapshot();
-            let mut held = std::collections::BTreeSet::new();
-            for sl in snap.as_array().unwrap() {
-                for t in ["main", "old"] {
-                    if let Some(a) = sl.get(t).and_then(|x| x.as_array()) {
-                        for e in a {
-                            held.insert(e[2].as_u64().unwrap_or(0) as u32);
-                            held.insert(e[3].as_u64().unwrap_or(0) as u32);
-                        }
-                    }
-                }
-            }
-            let leaked: Vec<u32> = live_ids().into_iter().filter(|i| !held.contains(i)).collect();
-            emit(&mut out, &json!({"op":"Snap","st": snap,"leaked":leaked,"cost":{"live": live_tables()},"led":{"dd":[],"dead":[],"drop":[],"new":[]}}));
-        }
         let ev0 = w0.exec(&x);
-        emit(&mut out, &ev0);
-        {
-            let mut g2 = mk(seed.wrapping_mul(31).wrapping_add(si * 1000));
-            for _ in 0..follow {
-                let op = g2.next_op(&w0);
-                let ev = w0.exec(&op);
-                emit(&mut out, &ev);
-            }
-            for s in 1..w0.slots.len() {
-                if w0.alive(s) {
-                    let ev = w0.exec(&json!({"op":"DropMap","s":s}));
-                    emit(&mut out, &ev);
-                }
-            }
-            emit(&mut out, &json!({"op":"EndRun","live_ids": live_ids(), "live_allocs": live_tables()}));
-        }
         let c = &ev0["cost"];
         let counts = [c["h"].as_u64().unwrap_or(0), c["eq"].as_u64().unwrap_or(0), c["cl"].as_u64().unwrap_or(0), c["fn"].as_u64().unwrap_or(0)];
         drop(w0);
@@ -312,66 +272,98 @@ fn run_faults<K: KeyT, V: ValT>(a: &Args) {
                 v.sort(); v.dedup(); v
             };
             for at in picks {
-                let mut w: World<K, V> = World::new(2, 64);
-                w.silent = true;
-                for op in &prefix {
-                    w.exec(op);
-                }
-                w.silent = false;
-                rebase_live();
-                let live_now: i64 = (1..w.slots.len()).filter(|&s| w.alive(s)).map(|s| {
-                    let st = w.vstate(s).unwrap();
-                    (st.main_buckets > 1) as i64 + st.split as i64
-                }).sum();
-                LIVE_BASE.fetch_sub(live_now, std::sync::atomic::Ordering::Relaxed);
-                // the silently replayed prefix travels with the segment, so that a cut-out segment is a
-                // self-contained replay script
-                emit(&mut out, &json!({"op":"Reset","state":si,"hm":hm,"nkeys":nkeys,"prefix":prefix.len(),"prefix_ops":prefix}));
-                // objects leaked before this point (forgotten iterators in earlier segments / the prefix)
-                let snap = w.snapshot();
-                let mut held = std::collections::BTreeSet::new();
-                for sl in snap.as_array().unwrap() {
-                    for t in ["main", "old"] {
-                        if let Some(a) = sl.get(t).and_then(|x| x.as_array()) {
-                            for e in a {
-                                held.insert(e[2].as_u64().unwrap_or(0) as u32);
-                                held.insert(e[3].as_u64().unwrap_or(0) as u32);
+                seg += 1;
+                let mut calls: Vec<Value> = Vec::new(); // the concrete calls of the faulted segment, re-used by its twin
+                for twin in 0..2u32 {
+                    let mut w: World<K, V> = World::new(2, 64);
+                    w.silent = true;
+                    for op in &prefix {
+                        w.exec(op);
+                    }
+                    w.silent = false;
+                    rebase_live();
+                    let live_now: i64 = (1..w.slots.len()).filter(|&s| w.alive(s)).map(|s| {
+                        let st = w.vstate(s).unwrap();
+                        (st.main_buckets > 1) as i64 + st.split as i64
+                    }).sum();
+                    LIVE_BASE.fetch_sub(live_now, std::sync::atomic::Ordering::Relaxed);
+                    // the silently replayed prefix travels with the segment, so that a cut-out segment is a
+                    // self-contained replay script; twin = 1 is the fault-free control making the same calls
+                    let mut reset = json!({"op":"Reset","state":si,"hm":hm,"nkeys":nkeys,"seg":seg,"twin":twin,"prefix":prefix.len(),"prefix_ops":prefix});
+                    if twin == 1 {
+                        reset["baseline"] = json!(1);
+                    }
+                    emit(&mut out, &reset);
+                    // objects leaked before this point (forgotten iterators in earlier segments / the prefix)
+                    let snap = w.snapshot();
+                    let mut held = std::collections::BTreeSet::new();
+                    for sl in snap.as_array().unwrap() {
+                        for t in ["main", "old"] {
+                            if let Some(a) = sl.get(t).and_then(|x| x.as_array()) {
+                                for e in a {
+                                    held.insert(e[2].as_u64().unwrap_or(0) as u32);
+                                    held.insert(e[3].as_u64().unwrap_or(0) as u32);
+                                }
                             }
                         }
                     }
-                }
-                let leaked: Vec<u32> = live_ids().into_iter().filter(|i| !held.contains(i)).collect();
-                emit(&mut out, &json!({"op":"Snap","st": snap,"leaked":leaked,"cost":{"live": live_tables()},"led":{"dd":[],"dead":[],"drop":[],"new":[]}}));
-                let mut xf = x.clone();
-                xf["fault"] = json!({"kind":kind,"at":at,"of":n});
-                let ev = w.exec(&xf);
-                emit(&mut out, &ev);
-                // every iterated element must be found by get (sweep all keys of small maps)
-                for sl in 1..w.slots.len() {
-                    if !w.alive(sl) {
-                        continue;
+                    let leaked: Vec<u32> = live_ids().into_iter().filter(|i| !held.contains(i)).collect();
+                    emit(&mut out, &json!({"op":"Snap","st": snap,"leaked":leaked,"cost":{"live": live_tables()},"led":{"dd":[],"dead":[],"drop":[],"new":[]}}));
+                    let mut idx = 0u32;
+                    let mut put = |w: &mut World<K, V>, op: &Value, idx: &mut u32, out: &mut BufWriter<std::fs::File>| {
+                        let mut ev = w.exec(op);
+                        ev["seg"] = json!(seg);
+                        ev["twin"] = json!(twin);
+                        ev["i"] = json!(*idx);
+                        *idx += 1;
+                        emit(out, &ev);
+                    };
+                    if twin == 0 {
+                        let mut xf = x.clone();
+                        xf["fault"] = json!({"kind":kind,"at":at,"of":n});
+                        put(&mut w, &xf, &mut idx, &mut out);
+                        // every iterated element must be found by get (sweep all keys of small maps)
+                        for sl in 1..w.slots.len() {
+                            if !w.alive(sl) {
+                                continue;
+                            }
+                            let (ka, kb) = w.keys_by_table(sl);
+                            let is_map = w.is_map(sl);
+                            for k in ka.iter().chain(kb.iter()).take(24) {
+                                let op = if is_map { json!({"op":"Get","s":sl,"k":k,"kind":"get"}) } else { json!({"op":"SContains","s":sl,"k":k}) };
+                                put(&mut w, &op, &mut idx, &mut out);
+                                calls.push(op);
+                            }
+                        }
+                        let mut g2 = mk(seed.wrapping_mul(31).wrapping_add(si * 1000 + kind as u64 * 100 + at));
+                        for _ in 0..follow {
+                            let op = g2.next_op(&w);
+                            put(&mut w, &op, &mut idx, &mut out);
+                            calls.push(op);
+                        }
+                    } else {
+                        put(&mut w, &x, &mut idx, &mut out);
+                        for op in &calls {
+                            // a call may not be applicable to the fault-free state (its slot was consumed, ...)
+                            let s_ = op.get("s").and_then(|v| v.as_u64()).unwrap_or(1) as usize;
+                            let d_ = op.get("d").and_then(|v| v.as_u64()).map(|v| v as usize);
+                            let nm = op["op"].as_str().unwrap_or("");
+                            let needs_alive = !(nm == "New" || nm == "FromIter");
+                            if (needs_alive && !w.alive(s_)) || (nm != "Clone" && d_.map_or(false, |d| !w.alive(d))) {
+                                idx += 1;
+                                continue;
+                            }
+                            put(&mut w, op, &mut idx, &mut out);
+                        }
                     }
-                    let (ka, kb) = w.keys_by_table(sl);
-                    let is_map = w.is_map(sl);
-                    for k in ka.iter().chain(kb.iter()).take(24) {
-                        let op = if is_map { json!({"op":"Get","s":sl,"k":k,"kind":"get"}) } else { json!({"op":"SContains","s":sl,"k":k}) };
-                        let ev = w.exec(&op);
-                        emit(&mut out, &ev);
+                    for s in 1..w.slots.len() {
+                        if w.alive(s) {
+                            let ev = w.exec(&json!({"op":"DropMap","s":s}));
+                            emit(&mut out, &ev);
+                        }
                     }
+                    emit(&mut out, &json!({"op":"EndRun","live_ids": live_ids(), "live_allocs": live_tables()}));
                 }
-                let mut g2 = mk(seed.wrapping_mul(31).wrapping_add(si * 1000 + kind as u64 * 100 + at));
-                for _ in 0..follow {
-                    let op = g2.next_op(&w);
-                    let ev = w.exec(&op);
-                    emit(&mut out, &ev);
-                }
-                for s in 1..w.slots.len() {
-                    if w.alive(s) {
-                        let ev = w.exec(&json!({"op":"DropMap","s":s}));
-                        emit(&mut out, &ev);
-                    }
-                }
-                emit(&mut out, &json!({"op":"EndRun","live_ids": live_ids(), "live_allocs": live_tables()}));
             }
         }
     }
@@ -758,7 +750,7 @@ fn run_script<K: KeyT, V: ValT>(a: &Args) {
             _ => {
                 // strip observation fields so that a recorded trace can be used as a script
                 let mut o = op.as_object().cloned().unwrap();
-                for k in ["res", "st", "cost", "led", "obs", "calls", "yield", "cyield", "hints", "tail", "kid", "vid", "vids", "ids", "objs", "unused", "big", "par", "visits", "toks", "order", "dbg", "mincap", "k_probe"] {
+                for k in ["res", "st", "cost", "led", "obs", "calls", "yield", "cyield", "hints", "tail", "kid", "vid", "vids", "ids", "objs", "unused", "big", "par", "visits", "toks", "order", "dbg", "mincap", "k_probe", "seg", "twin", "i"] {
                     o.remove(k);
                 }
                 match w.resolve(&Value::Object(o)) {
